@@ -363,13 +363,7 @@ impl V {
             }
         }
         if alt_inside_partial(pat, false) {
-            return Err("alternation inside a partial pattern (open finding)".into());
-        }
-        if self.in_any_cond.get() && constraining_subpatterns(pat) == 1 && (pat_has_value_requirement_below(pat) || super::progen::pat_has_pin_or_repeat(pat)) {
-            return Err("tuple pattern with one type-constraining field and an equality / literal requirement in a branch condition (open finding: single-field complement)".into());
-        }
-        if nested_repeat(pat) {
-            return Err("repeated binder inside a nested tuple pattern (open finding: dispatch guard ignores the equality requirement)".into());
+            return Err("alternation inside a partial pattern (open finding F37)".into());
         }
         if alt_of_structured(pat) {
             return Err("alternation whose alternatives are tuple patterns with fields (open finding)".into());
